@@ -506,16 +506,17 @@ Qed.
 
 End Sugar.
 
-(* What is NOT proved here (visible, not assumed anywhere): that the statement parser's result does not
-   depend on the tokens behind the cursor.  It is true of the real parser only because `prev()` (used by
-   `loop`) never steps back further than the loop's own tokens; proving it needs the progress invariant
-   "a successful statement consumes at least one non-comment token" for every parser function. *)
+(* Proved in PreSim.v (which needs the progress facts of ParserTotal.v, hence not here): the statement parser's
+   result does not depend on the tokens behind the cursor.  It is true of the real parser only because `prev()`
+   (used by `loop`) never steps back further than the loop's own tokens: "a successful statement consumes at
+   least one non-comment token". *)
 Definition statement_pre_insensitive_statement (T : ptab) : Prop :=
   forall f c c' s c3, same_modulo_pre c c' ->
     go T f (QStmt c) = Ok (RS s c3) ->
     exists c3', go T f (QStmt c') = Ok (RS s c3') /\ same_modulo_pre c3 c3' /\ prev_smp c3 c3'.
 
-(* the unconditional form of C14 loop_do; follows from [loop_do_conditional] and the statement above *)
+(* the unconditional form of C14 loop_do; follows from [loop_do_conditional] and the statement above
+   (PreSim.v: [loop_do], and [loop_do_converse] for the other direction) *)
 Definition loop_do_statement (T : ptab) : Prop :=
   forall p ts ov b f s c,
     go T f (QStmt (mkctx p (TK KLoop :: TK KDo :: ts) ov b)) = Ok (RS s c) ->
